@@ -599,7 +599,10 @@ pub fn supervise(prop: &dyn Property, tier: Tier, seed: u64) -> i32 {
     // regression tier: previously found failing cases of this property (replays/regress/<ID>-*.json)
     let mut regress_count = 0usize;
     let mut regress_hung: Vec<String> = Vec::new();
-    if let Ok(rd) = std::fs::read_dir(Path::new(VERIF).join("replays").join("regress")) {
+    // VERIF_NO_REGRESS=1 (sensitivity experiments only): skip the regression tier, so that a run shows
+    // what the generated search finds on its own
+    let no_regress = std::env::var("VERIF_NO_REGRESS").map(|v| v == "1").unwrap_or(false);
+    if let (false, Ok(rd)) = (no_regress, std::fs::read_dir(Path::new(VERIF).join("replays").join("regress"))) {
         let mut files: Vec<PathBuf> = rd
             .filter_map(|e| e.ok().map(|e| e.path()))
             .filter(|p| p.file_name().and_then(|n| n.to_str()).map(|n| n.starts_with(&format!("{}-", prop.id())) && n.ends_with(".json")).unwrap_or(false))
